@@ -204,4 +204,258 @@ pub fn run(ctx: &mut Ctx) {
         ctx.case("adaptive_dual", "mixed", idx, |c| { let k = c.rng.below(gen::BIT_KINDS as u64) as u32; let d = gen_bits(c, k, false); let n = d.bits.len(); let other = gen::bits_kind(&mut c.rng, 2, n); let bv2 = Def::new(other).bv();
             let rs = ctor!(AdaptiveMultiDimensional::new_dual(d.bv(), bv2), "adaptive_dual"); check_ops(c, &rs, &d, true) });
     }
+    gap_wave(ctx);
+}
+
+// ======================================================================================================
+// gap wave: entry points of the anchor files that no earlier case reached. New generator families only.
+// ======================================================================================================
+
+fn small_bits(c: &mut Case, kind: u32) -> Def { gen_bits(c, kind, false) }
+fn ones_below(w: u64, n: usize) -> u32 { if n >= 64 { w.count_ones() } else { (w & ((1u64 << n) - 1)).count_ones() } }
+fn kth_one(w: u64, k: u32) -> Option<u32> { let mut s = 0; for b in 0..64u32 { if (w >> b) & 1 == 1 { if s == k { return Some(b); } s += 1; } } None }
+
+/// BitVector observed through every read accessor vs the model; `op` names the mutation that ran last.
+fn check_bv(c: &mut Case, bv: &BitVector, m: &[bool], op: &str) -> Res {
+    let o = format!("bv_state_after:{op}"); let n = m.len();
+    ensure!(bv.len() == n, o, "len={} want {n}", bv.len());
+    ensure!(bv.is_empty() == (n == 0), o, "is_empty={} with n={n}", bv.is_empty());
+    ensure!(bv.capacity() >= n, o, "capacity {} < len {n}", bv.capacity());
+    let ones = m.iter().filter(|&&b| b).count();
+    ensure!(bv.count_ones() == ones, o, "count_ones={} want {ones} (n={n})", bv.count_ones());
+    ensure!(bv.count_zeros() == n - ones, o, "count_zeros={} want {}", bv.count_zeros(), n - ones);
+    for i in 0..n { let g = bv.get(i); ensure!(g == Some(m[i]), o, "get({i})={g:?} want {} (n={n})", m[i]); let u = unsafe { bv.get_unchecked(i) }; ensure!(u == m[i], o, "get_unchecked({i})={u} want {}", m[i]); }
+    ensure!(bv.get(n).is_none(), o, "get(len={n}) is Some");
+    let mut ps: Vec<usize> = vec![0, n, n / 2]; for _ in 0..24 { ps.push(c.rng.usize_below(n + 1)); } for b in (0..=n).step_by(64) { ps.push(b); if b > 0 { ps.push(b - 1); } }
+    let mut pre = vec![0usize; n + 1]; for i in 0..n { pre[i + 1] = pre[i] + m[i] as usize; }
+    for &p in &ps { let r = bv.rank1(p); ensure!(r == pre[p], o, "rank1({p})={r} want {} (n={n})", pre[p]); let r0 = bv.rank0(p); ensure!(r0 == p - pre[p], o, "rank0({p})={r0} want {}", p - pre[p]); }
+    let bulk = bv.rank1_bulk_simd(&ps); for (i, &p) in ps.iter().enumerate() { ensure!(bulk[i] == pre[p], o, "rank1_bulk_simd[{p}]={} want {}", bulk[i], pre[p]); }
+    c.ev((2 * n + 3 * ps.len()) as u64); Ok(())
+}
+
+/// A rank/select structure built from a BitVector that went through mutations must still follow the definition.
+fn check_rs_from(c: &mut Case, bv: &BitVector, m: &[bool], which: u64) -> Res {
+    let d = Def::new(m.to_vec());
+    let r = (|| -> Res { match which % 5 {
+        0 => { let rs = ctor!(RankSelectInterleaved256::new(bv.clone()), "il256"); check_ops(c, &rs, &d, true) }
+        1 => { let rs = ctor!(RankSelectSE256::new(bv.clone()), "se256"); check_ops(c, &rs, &d, true) }
+        2 => { let rs = ctor!(RankSelectSE512::new(bv.clone()), "se512"); check_ops(c, &rs, &d, true) }
+        3 => { let rs = ctor!(RankSelectSimple::new(bv.clone()), "simple"); check_ops(c, &rs, &d, true) }
+        _ => { let rs = ctor!(AdaptiveRankSelect::new(bv.clone()), "adaptive"); check_ops(c, &rs, &d, true) }
+    } })();
+    r.map_err(|f| { let o = if f.oracle.starts_with("panic:") { "ctor_panic".to_string() } else { f.oracle.clone() }; bad(&format!("rs_from_mutated[{}]:{}", ["il256", "se256", "se512", "simple", "adaptive"][(which % 5) as usize], o), f.detail) })
+}
+
+macro_rules! mutop { ($name:expr, $e:expr) => { match catch(|| $e) { Ok(Ok(x)) => x, Ok(Err(e)) => return Err(bad(&format!("bv_op_err:{}", $name), format!("in-contract {} returned Err: {e}", $name))), Err(p) => return Err(bad(&format!("bv_op_panic:{}", $name), format!("{} panicked at {}: {}", $name, p.loc, p.msg))) } } }
+
+/// one random in-contract mutation; `ops` is the allowed op set. Returns the op name.
+fn mutate(c: &mut Case, bv: &mut BitVector, m: &mut Vec<bool>, ops: &[&'static str], hist: &mut Vec<String>) -> Result<&'static str, Fail> {
+    let mut op = *c.rng.pick(ops); let n = m.len();
+    if n == 0 && matches!(op, "set" | "set_unchecked" | "get_mut" | "pop" | "set_range") { op = "push"; }
+    match op {
+        "set" => { let i = c.rng.usize_below(n); let v = c.rng.bool(); hist.push(format!("set({i},{v})")); mutop!(op, bv.set(i, v)); m[i] = v; }
+        "set_unchecked" => { let i = c.rng.usize_below(n); let v = c.rng.bool(); hist.push(format!("set_unchecked({i},{v})")); unsafe { bv.set_unchecked(i, v) }; m[i] = v; }
+        "get_mut" => { let i = c.rng.usize_below(n); let v = c.rng.bool(); hist.push(format!("get_mut({i}).set({v})"));
+            match bv.get_mut(i) { Some(mut r) => { ensure!(r.get() == m[i], "bitref_get", "get_mut({i}).get()={} want {}", r.get(), m[i]); ensure!(*r == m[i], "bitref_get", "*get_mut({i}) want {}", m[i]); mutop!("bitref_set", r.set(v)); } None => return Err(bad("bitref_none", format!("get_mut({i}) is None with len {n}"))) } m[i] = v; }
+        "push" => { let v = c.rng.bool(); hist.push(format!("push({v})")); mutop!(op, bv.push(v)); m.push(v); }
+        "pop" => { hist.push("pop".into()); let g = bv.pop(); let w = m.pop(); ensure!(g == w, "bv_pop", "pop()={g:?} want {w:?} (len was {n})"); }
+        "insert" => { let i = if c.rng.chance(1, 4) { *c.rng.pick(&[0, n]) } else { c.rng.usize_below(n + 1) }; let v = c.rng.bool(); hist.push(format!("insert({i},{v})")); mutop!(op, bv.insert(i, v)); m.insert(i, v); }
+        "grow" => { let k = n + 1 + if c.rng.bool() { c.rng.usize_below(70) } else { c.rng.usize_below(600) }; let v = c.rng.bool(); hist.push(format!("resize({k},{v})")); mutop!("resize_grow", bv.resize(k, v)); m.resize(k, v); }
+        "shrink" => { let k = if c.rng.chance(1, 6) { 0 } else if c.rng.bool() { n - c.rng.usize_below(n.min(70) + 1) } else { c.rng.usize_below(n + 1) }; let v = c.rng.bool(); hist.push(format!("resize({k},{v})")); mutop!("resize_shrink", bv.resize(k, v)); m.resize(k, v); }
+        "reserve" => { let k = c.rng.usize_below(2000); hist.push(format!("reserve({k})")); mutop!(op, bv.reserve(k)); }
+        "clear" => { hist.push("clear".into()); bv.clear(); m.clear(); }
+        "ensure_set1" | "fast_ensure_set1" => { let i = match c.rng.below(4) { 0 => c.rng.usize_below(n + 1), 1 => n, 2 => n + c.rng.usize_below(130), _ => n + c.rng.usize_below(1500) }; hist.push(format!("{op}({i})"));
+            if op == "ensure_set1" { mutop!(op, bv.ensure_set1(i)); } else { mutop!(op, bv.fast_ensure_set1(i)); } if i >= m.len() { m.resize(i + 1, false); } m[i] = true; }
+        "set_range" => { // non-empty-at-zero ranges only (end >= 1); the empty range at 0 has its own family
+            let e = 1 + c.rng.usize_below(n); let s = match c.rng.below(4) { 0 => e, 1 => (e / 64) * 64, 2 => e.saturating_sub(c.rng.usize_below(70)), _ => c.rng.usize_below(e + 1) }; let v = c.rng.bool();
+            hist.push(format!("set_range_simd({s},{e},{v})")); mutop!(op, bv.set_range_simd(s, e, v)); for i in s..e { m[i] = v; } }
+        _ => unreachable!(),
+    }
+    Ok(op)
+}
+
+fn record_hist(c: &mut Case, hist: &[String]) { c.input_str("ops", &hist.join(";")); }
+
+fn gap_wave(ctx: &mut Ctx) {
+    use zipora::succinct::BitwiseOp;
+    use zipora::succinct::rank_select::bmi2_acceleration::{Bmi2AdvancedPatterns, Bmi2Dispatcher};
+    let per = ctx.n(5, 80);
+    for kind in 0..gen::BIT_KINDS {
+        let kn = gen::bit_kind_name(kind);
+        for idx in 0..per as u64 {
+            // ---- il256: *_optimized entry points (lines() / fast_prefetch_rank1 need the private InterleavedLine type: not callable)
+            ctx.case("il256", &format!("optapi_{kn}"), idx, |c| { let d = small_bits(c, kind); let n = d.bits.len(); let ones = d.pre[n];
+                let rs = ctor!(RankSelectInterleaved256::new(d.bv()), "il256"); let ps = d.probe_positions(c);
+                for &p in &ps { rs.prefetch_select1(p);
+                    let v = catch(|| rs.rank1_optimized(p)).map_err(|e| bad("rank1_optimized_panic", format!("rank1_optimized({p}) n={n}: {}", e.loc)))?; ensure!(v == d.pre[p], "rank1_optimized", "rank1_optimized({p})={v} want {} (n={n})", d.pre[p]); c.ev(1); }
+                let b = rs.rank1_bulk_optimized(&ps); ensure!(b.len() == ps.len(), "rank1_bulk_optimized", "len"); for (i, &p) in ps.iter().enumerate() { ensure!(b[i] == d.pre[p], "rank1_bulk_optimized", "[{p}]={} want {}", b[i], d.pre[p]); }
+                let ks = d.probe_ks(c, ones);
+                for &k in &ks { let r = catch(|| rs.select1_optimized(k)).map_err(|e| bad("select1_optimized_panic", format!("select1_optimized({k}) ones={ones}: {}", e.loc)))?; ensure!(matches!(r, Ok(v) if v == d.pos1[k]), "select1_optimized", "select1_optimized({k})={r:?} want {}", d.pos1[k]); c.ev(1); }
+                match rs.select1_bulk_optimized(&ks) { Ok(v) => { ensure!(v.len() == ks.len(), "select1_bulk_optimized", "len"); for (i, &k) in ks.iter().enumerate() { ensure!(v[i] == d.pos1[k], "select1_bulk_optimized", "[{k}]={} want {}", v[i], d.pos1[k]); } } Err(e) => return Err(bad("select1_bulk_optimized", format!("err {e} on valid indices"))) }
+                let r = catch(|| rs.select1_optimized(ones)).map_err(|e| bad("select1_optimized_oob_panic", format!("k=ones={ones}: {}", e.loc)))?; ensure!(r.is_err(), "select1_optimized_oob", "select1_optimized(ones={ones})={r:?}");
+                let mut bk = ks.clone(); bk.push(ones); ensure!(rs.select1_bulk_optimized(&bk).is_err(), "select1_bulk_optimized_oob", "k=ones accepted");
+                Ok(()) });
+            // ---- default constructors + max_rank getters (count of ones / zeros are exact)
+            ctx.case("se256", &format!("dflt_{kn}"), idx, |c| { let d = small_bits(c, kind); let n = d.bits.len(); let rs = ctor!(RankSelectSE256::new(d.bv()), "se256_new");
+                ensure!(rs.max_rank1() == d.pre[n], "max_rank1", "max_rank1={} want {}", rs.max_rank1(), d.pre[n]); ensure!(rs.max_rank0() == n - d.pre[n], "max_rank0", "max_rank0={} want {}", rs.max_rank0(), n - d.pre[n]);
+                for p in [0, n / 2, n, n + 300] { rs.prefetch_rank1(p); } check_ops(c, &rs, &d, true) });
+            ctx.case("se512", &format!("dflt_{kn}"), idx, |c| { let d = small_bits(c, kind); let n = d.bits.len(); let rs = ctor!(RankSelectSE512::new(d.bv()), "se512_new");
+                ensure!(rs.max_rank1() == d.pre[n], "max_rank1", "max_rank1={} want {}", rs.max_rank1(), d.pre[n]); ensure!(rs.max_rank0() == n - d.pre[n], "max_rank0", "max_rank0={} want {}", rs.max_rank0(), n - d.pre[n]);
+                check_ops(c, &rs, &d, true) });
+            ctx.case("simple", &format!("dflt_{kn}"), idx, |c| { let d = small_bits(c, kind); let n = d.bits.len(); let rs = ctor!(RankSelectSimple::new(d.bv()), "simple");
+                ensure!(rs.max_rank1() == d.pre[n], "max_rank1", "max_rank1={} want {}", rs.max_rank1(), d.pre[n]); ensure!(rs.max_rank0() == n - d.pre[n], "max_rank0", "max_rank0={} want {}", rs.max_rank0(), n - d.pre[n]); Ok(()) });
+            // ---- word-level rank/select primitives (POPCNT / BZHI / PDEP paths and their fallbacks)
+            ctx.case("bmi2_word", &format!("word_{kn}"), idx, |c| { let d = small_bits(c, kind); let mut ws = d.words(); ws.truncate(24); ws.extend_from_slice(&[0, u64::MAX, 1, 1 << 63, c.rng.next(), c.rng.next() & c.rng.next() & c.rng.next(), c.rng.next() | c.rng.next() | c.rng.next()]);
+                let acc = Bmi2Accelerator::new(); let disp = Bmi2Dispatcher::new();
+                for &w in &ws { let pc = w.count_ones();
+                    ensure!(Bmi2RankOps::popcount_u64(w) == pc, "popcount_u64", "w={w:#x}"); ensure!(disp.dispatch_popcount(w) == pc, "dispatch_popcount", "w={w:#x}");
+                    for p in 0..=64usize { let want = ones_below(w, p);
+                        let a = Bmi2RankOps::popcount_trail(w, p as u32); ensure!(a == want, "popcount_trail", "popcount_trail({w:#x},{p})={a} want {want}");
+                        let b = acc.rank1(w, p as u32); ensure!(b == want, "accel_rank1", "rank1({w:#x},{p})={b} want {want}");
+                        let e = Bmi2BitOpsComprehensive::rank1_optimized(w, p); ensure!(e == want as usize, "bmi2c_rank1_optimized", "rank1_optimized({w:#x},{p})={e} want {want}");
+                        c.ev(3); }
+                    for p in [65usize, 100, 1 << 20] { ensure!(Bmi2BitOpsComprehensive::rank1_optimized(w, p) == pc as usize, "bmi2c_rank1_optimized", "pos {p} > 64"); ensure!(Bmi2RankOps::popcount_trail(w, p as u32) == pc, "popcount_trail", "n={p}"); }
+                    let mut all = Vec::new();
+                    for k in 0..pc { let want = kth_one(w, k); all.push(want.unwrap());
+                        let r = [("select1_u64", Bmi2SelectOps::select1_u64(w, k)), ("select1_u64_enhanced", Bmi2SelectOps::select1_u64_enhanced(w, k)), ("pdep_ctz_select", Bmi2AdvancedPatterns::pdep_ctz_select(w, k)),
+                            ("accel_select1", acc.select1(w, k)), ("accel_select1_enhanced", acc.select1_enhanced(w, k)), ("dispatch_select", disp.dispatch_select(w, k))];
+                        for (nm, g) in r { ensure!(g == want, nm, "{nm}({w:#x},{k})={g:?} want {want:?}"); }
+                        let wu = want.map(|x| x as usize);
+                        let g = Bmi2BitOpsComprehensive::select1_ultra_fast(w, k as usize + 1); ensure!(g == wu, "bmi2c_select1_ultra_fast", "select1_ultra_fast({w:#x},rank={})={g:?} want {wu:?}", k + 1);
+                        let g = Bmi2BitOpsComprehensive::select1_fallback(w, k as usize + 1); ensure!(g == wu, "bmi2c_select1_fallback", "select1_fallback({w:#x},rank={})={g:?} want {wu:?}", k + 1);
+                        c.ev(8); }
+                    for k in [pc, pc + 1, 64, 65, u32::MAX] { if k < pc { continue; }
+                        let r = [("select1_u64", Bmi2SelectOps::select1_u64(w, k)), ("select1_u64_enhanced", Bmi2SelectOps::select1_u64_enhanced(w, k)), ("pdep_ctz_select", Bmi2AdvancedPatterns::pdep_ctz_select(w, k)), ("accel_select1", acc.select1(w, k)), ("dispatch_select", disp.dispatch_select(w, k))];
+                        for (nm, g) in r { ensure!(g.is_none(), format!("{nm}_oob"), "{nm}({w:#x},{k})={g:?} with {pc} ones"); } }
+                    if pc < 64 { let g = catch(|| Bmi2BitOpsComprehensive::select1_ultra_fast(w, pc as usize + 1)).map_err(|e| bad("bmi2c_select1_oob_panic", format!("{}: {}", e.loc, e.msg)))?; ensure!(g.is_none(), "bmi2c_select1_ultra_fast_oob", "rank {} of {pc} ones -> {g:?}", pc + 1);
+                        ensure!(Bmi2BitOpsComprehensive::select1_fallback(w, pc as usize + 1).is_none(), "bmi2c_select1_fallback_oob", "rank {}", pc + 1); }
+                    let zc = 64 - pc; for k in 0..zc { let want = kth_one(!w, k); let g = Bmi2SelectOps::select0_u64(w, k); ensure!(g == want, "select0_u64", "select0_u64({w:#x},{k})={g:?} want {want:?}"); } ensure!(Bmi2SelectOps::select0_u64(w, zc).is_none(), "select0_u64_oob", "k=zeros={zc}");
+                    if pc > 0 { match Bmi2AdvancedPatterns::pdep_ctz_select_bulk(w, &(0..pc).collect::<Vec<u32>>()) { Ok(v) => ensure!(v == all, "pdep_ctz_select_bulk", "w={w:#x} got {v:?}"), Err(e) => return Err(bad("pdep_ctz_select_bulk", format!("err {e} on valid ks"))) } }
+                    ensure!(Bmi2AdvancedPatterns::pdep_ctz_select_bulk(w, &[pc]).is_err(), "pdep_ctz_select_bulk_oob", "k=ones accepted, w={w:#x}");
+                    let mut rg = Vec::new(); for _ in 0..24 { let s = if c.rng.chance(1, 8) { 64 + c.rng.below(10) as u32 } else { c.rng.below(64) as u32 }; let l = match c.rng.below(4) { 0 => 0, 1 => 64u32.saturating_sub(s), 2 => c.rng.below(130) as u32, _ => c.rng.below(65) as u32 }; rg.push((s, l)); }
+                    let want: Vec<u32> = rg.iter().map(|&(s, l)| (s as usize..(s as usize + l as usize).min(64)).filter(|&b| (w >> b) & 1 == 1).count() as u32).collect();
+                    for (i, &(s, l)) in rg.iter().enumerate() { let g = Bmi2RangeOps::count_ones_range(w, s, l); ensure!(g == want[i], "count_ones_range", "count_ones_range({w:#x},{s},{l})={g} want {}", want[i]); }
+                    let g = Bmi2RangeOps::count_ones_multi_range(w, &rg); ensure!(g == want, "count_ones_multi_range", "w={w:#x}");
+                }
+                let pb = Bmi2RankOps::popcount_bulk(&ws); ensure!(pb.len() == ws.len() && pb.iter().zip(&ws).all(|(a, w)| *a == w.count_ones()), "popcount_bulk", "mismatch on {} words", ws.len());
+                let pb = Bmi2BlockOps::process_blocks_simd(&ws); ensure!(pb.len() == ws.len() && pb.iter().zip(&ws).all(|(a, w)| a.0 == w.count_ones()), "process_blocks_simd", "popcount component mismatch");
+                Ok(()) });
+            // ---- multi-word bulk rank/select of the BMI2 modules + run lengths
+            ctx.case("bmi2_bulk", &format!("bulk_{kn}"), idx, |c| { let d = small_bits(c, kind); let n = d.bits.len(); let ones = d.pre[n]; let w = d.words(); let acc = Bmi2Accelerator::new();
+                if (1..w.len()).any(|i| w[i] == 0 && w[..i].iter().any(|&x| x != 0)) { c.tag("zero_word_after_ones"); }
+                let ps = d.probe_positions(c);
+                let r = Bmi2BlockOps::rank_bulk(&w, &ps); ensure!(r.len() == ps.len(), "bmi2_rank_bulk", "len"); for (i, &p) in ps.iter().enumerate() { ensure!(r[i] == d.pre[p], "bmi2_rank_bulk", "rank_bulk pos {p} = {} want {} (n={n})", r[i], d.pre[p]); }
+                let r = acc.rank_bulk(&w, &ps); for (i, &p) in ps.iter().enumerate() { ensure!(r[i] == d.pre[p], "accel_rank_bulk", "pos {p} = {} want {}", r[i], d.pre[p]); }
+                let ks = d.probe_ks(c, ones);
+                let k32: Vec<u32> = ks.iter().map(|&k| k as u32).collect();
+                match catch(|| Bmi2SelectOps::select1_bulk(&w, &k32)).map_err(|e| bad("bmi2_select1_bulk_panic", format!("{}: {}", e.loc, e.msg)))? { Ok(v) => { for (i, &k) in ks.iter().enumerate() { ensure!(v[i] as usize == d.pos1[k], "bmi2_select1_bulk", "k={k} got {} want {}", v[i], d.pos1[k]); } } Err(e) => return Err(bad("bmi2_select1_bulk_err", format!("err on valid ks: {e}"))) }
+                let r = catch(|| Bmi2SelectOps::select1_bulk(&w, &[ones as u32])).map_err(|e| bad("bmi2_select1_bulk_oob_panic", format!("k=ones={ones}: {}: {}", e.loc, e.msg)))?; ensure!(r.is_err(), "bmi2_select1_bulk_oob", "k=ones accepted");
+                // comprehensive module: ranks are 1-based (its own tests call it with 1, 2, 4, 8)
+                let k1: Vec<usize> = ks.iter().map(|&k| k + 1).collect();
+                match catch(|| Bmi2BlockOpsComprehensive::bulk_select1(&w, &k1)).map_err(|e| bad("bmi2c_bulk_select1_panic", format!("{}: {}", e.loc, e.msg)))? { Ok(v) => { for (i, &k) in ks.iter().enumerate() { ensure!(v[i] == d.pos1[k], "bmi2c_bulk_select1", "rank={} got {} want {}", k + 1, v[i], d.pos1[k]); } } Err(e) => return Err(bad("bmi2c_bulk_select1_err", format!("err on valid ranks: {e}"))) }
+                ensure!(Bmi2BlockOpsComprehensive::bulk_select1(&w, &[ones + 1]).is_err(), "bmi2c_bulk_select1_oob", "rank=ones+1 accepted");
+                // bulk_rank1 of the comprehensive module: undocumented whether positions are global or per word -> only the first word is decidable
+                let p0: Vec<usize> = (0..64.min(n + 1)).collect(); if !w.is_empty() { let r = Bmi2BlockOpsComprehensive::bulk_rank1(&w, &p0); for (i, &p) in p0.iter().enumerate() { ensure!(r[i] == d.pre[p], "bmi2c_bulk_rank1", "pos {p} = {} want {}", r[i], d.pre[p]); }
+                    let r = Bmi2BlockOpsComprehensive::bulk_rank1(&w, &ps); c.note(if ps.iter().zip(&r).all(|(&p, &x)| x == d.pre[p]) { "bmi2c_bulk_rank1_global" } else { "bmi2c_bulk_rank1_per_word" }, 1); }
+                // Bmi2BlockOps::select_bulk last (it has a known failing class on inputs with all-zero words)
+                match catch(|| Bmi2BlockOps::select_bulk(&w, &ks)).map_err(|e| bad("bmi2_select_bulk_panic", format!("{}: {}", e.loc, e.msg)))? { Ok(v) => { for (i, &k) in ks.iter().enumerate() { ensure!(v[i] == d.pos1[k], "bmi2_select_bulk", "k={k} got {} want {}", v[i], d.pos1[k]); } } Err(e) => return Err(bad("bmi2_select_bulk_err", format!("err on valid ks (ones={ones}, words={}): {e}", w.len()))) }
+                match acc.select_bulk(&w, &ks) { Ok(v) => { for (i, &k) in ks.iter().enumerate() { ensure!(v[i] == d.pos1[k], "accel_select_bulk", "k={k} got {} want {}", v[i], d.pos1[k]); } } Err(e) => return Err(bad("accel_select_bulk_err", format!("err on valid ks: {e}"))) }
+                ensure!(Bmi2BlockOps::select_bulk(&w, &[ones]).is_err(), "bmi2_select_bulk_oob", "k=ones={ones} accepted"); ensure!(Bmi2BlockOps::select_bulk(&w, &[ones + 1]).is_err(), "bmi2_select_bulk_oob", "k=ones+1 accepted");
+                Ok(()) });
+            // ---- run lengths (one_seq_len(p) = select0(rank0(p)) - p on the padded sequence)
+            ctx.case("bmi2_bulk", &format!("seqlen_{kn}"), idx, |c| { let d = small_bits(c, kind); let n = d.bits.len(); let w = d.words();
+                // run lengths over the zero-padded word array
+                let np = w.len() * 64; let pb = |i: usize| i < n && d.bits[i];
+                let mut run1 = vec![0usize; np + 1]; let mut run0 = vec![0usize; np + 1]; for i in (0..np).rev() { if pb(i) { run1[i] = run1[i + 1] + 1; } else { run0[i] = run0[i + 1] + 1; } }
+                let mut rev1 = vec![0usize; np + 1]; for i in 0..np { if pb(i) { rev1[i + 1] = rev1[i] + 1; } }
+                let qs: Vec<usize> = if np <= 1024 { (0..np).collect() } else { let mut q: Vec<usize> = (0..300).map(|_| c.rng.usize_below(np)).collect(); for b in (0..np).step_by(64) { q.push(b); q.push(b + 63); } q };
+                for &p in &qs { let g = Bmi2SequenceOps::one_seq_len(&w, p); ensure!(g == run1[p], "one_seq_len", "one_seq_len({p})={g} want {} (n={n})", run1[p]);
+                    let g = Bmi2SequenceOps::zero_seq_len(&w, p); ensure!(g == run0[p], "zero_seq_len", "zero_seq_len({p})={g} want {} (n={n}, padded {np})", run0[p]);
+                    c.ev(2); }
+                // one_seq_revlen: queries whose run stays inside the word first, then the ones that touch a word boundary
+                let cross = |e: usize| pb(e - 1) && (e % 64 == 0 || (e > 64 && rev1[e] >= (e - 1) % 64 + 1));
+                for &p in &qs { let e = p + 1; if cross(e) { continue; } let g = catch(|| Bmi2SequenceOps::one_seq_revlen(&w, e)).map_err(|x| bad("one_seq_revlen_panic", format!("one_seq_revlen(end={e}) n={n}: {} {}", x.loc, x.msg)))?; ensure!(g == rev1[e], "one_seq_revlen", "one_seq_revlen({e})={g} want {} (n={n})", rev1[e]); c.ev(1); }
+                let mut es: Vec<usize> = qs.iter().map(|&p| p + 1).filter(|&e| cross(e)).collect(); es.sort(); es.dedup(); if !es.is_empty() { c.tag("revlen_run_touches_word_boundary"); }
+                for e in es { let g = catch(|| Bmi2SequenceOps::one_seq_revlen(&w, e)).map_err(|x| bad("one_seq_revlen_wordcross_panic", format!("one_seq_revlen(end={e}) run={} n={n}: {} {}", rev1[e], x.loc, x.msg)))?; ensure!(g == rev1[e], "one_seq_revlen_wordcross", "one_seq_revlen({e})={g} want {} (n={n})", rev1[e]); c.ev(1); }
+                Ok(()) });
+            // ---- BitVector: alternative constructors
+            ctx.case("bitvector", &format!("ctor_{kn}"), idx, |c| { let d = small_bits(c, kind); let n = d.bits.len(); let how = c.rng.below(6); c.input_str("how", &how.to_string());
+                let bv = match how {
+                    0 => { let mut bv = ctor!(BitVector::with_capacity(c.rng.usize_below(2 * n + 2)), "with_capacity"); ensure!(bv.is_empty() && bv.len() == 0, "with_capacity", "not empty"); for &b in &d.bits { mutop!("push", bv.push(b)); } bv }
+                    1 => { let v = c.rng.bool(); let mut bv = ctor!(BitVector::with_size(n, v), "with_size"); check_bv(c, &bv, &vec![v; n], "with_size")?; for i in 0..n { if d.bits[i] != v { mutop!("set", bv.set(i, d.bits[i])); } } bv }
+                    2 => { let mut bv = ctor!(BitVector::with_size(n, false), "with_size"); let mut p = d.pos1.clone(); c.rng.shuffle(&mut p); for &i in &p { mutop!("ensure_set1", bv.ensure_set1(i)); } bv }
+                    3 => { let mut bv = BitVector::new(); let mut p = d.pos1.clone(); if c.rng.bool() { c.rng.shuffle(&mut p); } for &i in &p { mutop!("ensure_set1", bv.ensure_set1(i)); } let l = bv.len(); ensure!(l == d.pos1.last().map_or(0, |x| x + 1), "ensure_set1_len", "len {l}"); mutop!("resize_grow", bv.resize(n, false)); bv }
+                    4 => { let mut bv = if c.rng.bool() { BitVector::new() } else { ctor!(BitVector::with_capacity(n), "with_capacity") }; for &i in &d.pos1 { mutop!("fast_ensure_set1", bv.fast_ensure_set1(i)); } mutop!("resize_grow", bv.resize(n, false)); bv }
+                    _ => { let mut bv = ctor!(BitVector::with_size(n, true), "with_size"); for i in 0..n { if !d.bits[i] { match bv.get_mut(i) { Some(mut r) => { mutop!("bitref_set", r.set(false)); } None => return Err(bad("bitref_none", format!("get_mut({i})"))) } } } bv }
+                };
+                check_bv(c, &bv, &d.bits, "ctor")?; ensure!(bv == d.bv(), "bv_eq", "built BitVector != pushed BitVector (how={how})"); let w = c.rng.next(); check_rs_from(c, &bv, &d.bits, w) });
+            // ---- BitVector: mutation histories (reads follow the model after every step)
+            ctx.case("bitvector", &format!("mut_{kn}"), idx, |c| { let d = small_bits(c, kind); let mut m = d.bits.clone(); if m.len() > 1500 { m.truncate(1500); } let mut bv = BitVector::new(); for &b in &m { bv.push(b).unwrap(); }
+                let mut hist = Vec::new(); let ops = ["set", "set_unchecked", "get_mut", "push", "pop", "insert", "grow", "pop", "reserve", "set_range", "set_range", "clear"];
+                for _ in 0..24 { let nops = if c.rng.chance(1, 12) { 12 } else { 11 }; let r = mutate(c, &mut bv, &mut m, &ops[..nops], &mut hist); record_hist(c, &hist); let op = r?; check_bv(c, &bv, &m, op)?; }
+                let w = c.rng.next(); check_rs_from(c, &bv, &m, w) });
+            // same, with truncation through resize(); the structure built afterwards is decided in every case (all five kinds)
+            ctx.case("bitvector", &format!("mutshrink_{kn}"), idx, |c| { let d = small_bits(c, kind); let mut m = d.bits.clone(); if m.len() > 1500 { m.truncate(1500); } let mut bv = BitVector::new(); for &b in &m { bv.push(b).unwrap(); }
+                let mut hist = Vec::new(); let ops = ["set", "get_mut", "push", "pop", "insert", "grow", "shrink", "shrink", "set_range"]; let mut stale: Vec<bool> = Vec::new(); // stale[w]: word w lies wholly beyond len and may still hold ones
+                for _ in 0..16 { let before = m.clone(); let r = mutate(c, &mut bv, &mut m, &ops, &mut hist); record_hist(c, &hist); let op = r?;
+                    if op == "shrink" { let fw = if m.is_empty() { 0 } else { (m.len() + 63) / 64 }; let need = (before.len() + 63) / 64; if stale.len() < need { stale.resize(need, false); } for w in fw..need { if before[w * 64..before.len().min(w * 64 + 64)].iter().any(|&b| b) { stale[w] = true; } } }
+                    else { for w in 0..stale.len() { if m.len() >= w * 64 + 64 || op == "clear" { stale[w] = false; } } }
+                    check_bv(c, &bv, &m, op)?; }
+                if stale.iter().enumerate().any(|(w, &s)| s && w * 64 + 64 > m.len()) { c.tag("stale_words_beyond_len_after_resize_shrink"); }
+                for which in 0..5 { check_rs_from(c, &bv, &m, which)?; } Ok(()) });
+            ctx.case("bitvector", &format!("ensure_{kn}"), idx, |c| { let d = small_bits(c, kind); let mut m = d.bits.clone(); if m.len() > 1500 { m.truncate(1500); } let mut bv = BitVector::new(); for &b in &m { bv.push(b).unwrap(); }
+                let mut hist = Vec::new(); let ops = ["ensure_set1", "fast_ensure_set1", "ensure_set1", "fast_ensure_set1", "push", "pop", "set", "grow", "reserve"];
+                for _ in 0..24 { let r = mutate(c, &mut bv, &mut m, &ops, &mut hist); record_hist(c, &hist); let op = r?; check_bv(c, &bv, &m, op)?; }
+                let w = c.rng.next(); check_rs_from(c, &bv, &m, w) });
+            // shrinking by resize and then growing through ensure_set1 / fast_ensure_set1
+            ctx.case("bitvector", &format!("shrink_ensure_{kn}"), idx, |c| { let d = small_bits(c, kind); let mut m = d.bits.clone(); if m.len() > 1500 { m.truncate(1500); } let mut bv = BitVector::new(); for &b in &m { bv.push(b).unwrap(); }
+                let mut hist = Vec::new(); let fast = c.rng.bool(); let ops: [&'static str; 4] = ["shrink", if fast { "fast_ensure_set1" } else { "ensure_set1" }, "push", "set"]; let mut dropped_one = false;
+                for _ in 0..12 { let before = m.clone(); let r = mutate(c, &mut bv, &mut m, &ops, &mut hist); record_hist(c, &hist); let last = hist.last().cloned().unwrap_or_default();
+                    if let Some(k) = last.strip_prefix("resize(").and_then(|x| x.split(',').next()).and_then(|x| x.parse::<usize>().ok()) { let from = if k == 0 { 0 } else { (k + 63) / 64 * 64 }; if from < before.len() && before[from..].iter().any(|&b| b) { dropped_one = true; } }
+                    if let Some(i) = last.split("ensure_set1(").nth(1).and_then(|x| x.trim_end_matches(')').parse::<usize>().ok()) { if dropped_one && i >= before.len() { c.tag("ensure_grow_after_resize_shrink_dropped_ones"); } }
+                    let op = r?; check_bv(c, &bv, &m, op)?; }
+                Ok(()) });
+            // ---- set_range_simd incl. the empty range at 0
+            ctx.case("bitvector", &format!("range0_{kn}"), idx, |c| { let d = small_bits(c, kind); let mut bv = d.bv(); let v = c.rng.bool(); c.tag("empty_range_at_0");
+                match catch(|| bv.set_range_simd(0, 0, v)) { Ok(Ok(())) => {} Ok(Err(e)) => { if d.bits.is_empty() { c.note("range0_err_on_empty", 1); } else { return Err(bad("set_range_empty_err", format!("set_range_simd(0,0) on len {}: {e}", d.bits.len()))); } } Err(p) => return Err(bad("set_range_empty_at_0_panic", format!("set_range_simd(0,0,{v}) len={} panicked at {}: {}", d.bits.len(), p.loc, p.msg))) }
+                check_bv(c, &bv, &d.bits, "set_range_empty") });
+            // ---- bulk_bitwise_op_simd: word-aligned ranges, and arbitrary ranges
+            for aligned in [true, false] {
+                ctx.case("bitvector", &format!("{}_{kn}", if aligned { "bitop_aligned" } else { "bitop" }), idx, |c| { let d = small_bits(c, kind); let mut m = d.bits.clone(); let n = m.len(); let mut bv = d.bv();
+                    let k2 = c.rng.below(gen::BIT_KINDS as u64) as u32; let on = match c.rng.below(3) { 0 => n, 1 => n + c.rng.usize_below(200), _ => c.rng.usize_below(n + 1) }; let o = gen::bits_kind(&mut c.rng, k2, on); let obv = Def::new(o.clone()).bv();
+                    c.input_str("other_kind", gen::bit_kind_name(k2)); c.input_str("other_len", &on.to_string());
+                    let lim = n.min(on); if lim == 0 { return Ok(()); }
+                    let mut hist = Vec::new();
+                    for _ in 0..4 { let op = *c.rng.pick(&[BitwiseOp::And, BitwiseOp::Or, BitwiseOp::Xor]);
+                        let (s, e) = if aligned { let e = if c.rng.bool() && n == on { lim } else { (c.rng.usize_below(lim + 1) / 64) * 64 }; if e == 0 { continue; } let s = (c.rng.usize_below(e) / 64) * 64; (s, e) } else { let e = 1 + c.rng.usize_below(lim); (c.rng.usize_below(e + 1), e) };
+                        if s % 64 != 0 || (e % 64 != 0 && !(e == n && e == on)) { c.tag("bitop_unaligned_range"); }
+                        hist.push(format!("{op:?}[{s},{e})")); c.input_str("ops", &hist.join(";"));
+                        match catch(|| bv.bulk_bitwise_op_simd(&obv, op, s, e)) { Ok(Ok(())) => {} Ok(Err(er)) => return Err(bad("bitop_err", format!("valid range [{s},{e}) n={n} other={on}: {er}"))), Err(p) => return Err(bad("bitop_panic", format!("[{s},{e}) n={n}: {} {}", p.loc, p.msg))) }
+                        for i in s..e { m[i] = match op { BitwiseOp::And => m[i] & o[i], BitwiseOp::Or => m[i] | o[i], BitwiseOp::Xor => m[i] ^ o[i] }; }
+                        check_bv(c, &bv, &m, if aligned { "bitop_aligned" } else { "bitop" })?; }
+                    let w = c.rng.next(); check_rs_from(c, &bv, &m, w) });
+            }
+        }
+    }
+    // ---- trivial implementations: extra getters; multi-dimensional meta data; k = usize::MAX in the BMI2 bulk select
+    for idx in 0..ctx.n(12, 200) as u64 {
+        ctx.case("allzero", "extras", idx, |c| { let n = if c.rng.bool() { *c.rng.pick(gen::BIT_LENS) } else { c.rng.usize_below(70000) }; c.input_str("n", &n.to_string()); c.set_nontrivial(n >= 2); let rs = RankSelectAllZero::new(n);
+            ensure!(rs.max_rank0() == n && rs.max_rank1() == 0, "max_rank", "allzero max_rank0={} max_rank1={}", rs.max_rank0(), rs.max_rank1());
+            for _ in 0..50 { if n == 0 { break; } let p = if c.rng.chance(1, 5) { *c.rng.pick(&[0, n - 1]) } else { c.rng.usize_below(n) }; ensure!(rs.zero_seq_len(p) == n - p, "zero_seq_len", "allzero zero_seq_len({p})={} n={n}", rs.zero_seq_len(p)); ensure!(rs.one_seq_len(p) == 0, "one_seq_len", "allzero one_seq_len({p})"); ensure!(rs.is0(p) && !rs.is1(p), "is01", "allzero p={p}"); c.ev(3); }
+            Ok(()) });
+        ctx.case("allone", "extras", idx, |c| { let n = if c.rng.bool() { *c.rng.pick(gen::BIT_LENS) } else { c.rng.usize_below(70000) }; c.input_str("n", &n.to_string()); c.set_nontrivial(n >= 2); let rs = RankSelectAllOne::new(n);
+            ensure!(rs.max_rank1() == n && rs.max_rank0() == 0, "max_rank", "allone max_rank0={} max_rank1={}", rs.max_rank0(), rs.max_rank1());
+            for _ in 0..50 { if n == 0 { break; } let p = if c.rng.chance(1, 5) { *c.rng.pick(&[0, n - 1]) } else { c.rng.usize_below(n) }; ensure!(rs.one_seq_len(p) == n - p, "one_seq_len", "allone one_seq_len({p})={} n={n}", rs.one_seq_len(p)); ensure!(rs.zero_seq_len(p) == 0, "zero_seq_len", "allone zero_seq_len({p})"); ensure!(rs.is1(p) && !rs.is0(p), "is01", "allone p={p}"); c.ev(3); }
+            Ok(()) });
+    }
+    for idx in 0..ctx.n(6, 60) as u64 {
+        ctx.case("multidim3", "meta", idx, |c| { let k = c.rng.below(gen::BIT_KINDS as u64) as u32; let d = small_bits(c, k); let n = d.bits.len(); if n == 0 { return Ok(()); } let d1 = Def::new(gen::bits_kind(&mut c.rng, 2, n));
+            let m: MultiDimRankSelect<2> = ctor!(MultiDimRankSelect::<2>::new(vec![d.bv(), d1.bv()]), "multidim2"); ensure!(m.total_bits() == n, "multidim_total_bits", "total_bits={} want {n}", m.total_bits()); ensure!(m.num_dimensions() == 2, "multidim_dims", "num_dimensions={}", m.num_dimensions());
+            let a = ctor!(AdaptiveMultiDimensional::new_dual(d.bv(), d1.bv()), "adaptive_dual"); ensure!(a.dimensions() == 2, "adaptive_dims", "dimensions()={}", a.dimensions()); ensure!(a.len() == n, "len", "adaptive_dual len {}", a.len()); Ok(()) });
+        ctx.case("bmi2_bulk", "kmax", idx, |c| { let k = c.rng.below(gen::BIT_KINDS as u64) as u32; let d = small_bits(c, k); let w = d.words(); c.tag("k_usize_max");
+            let r = catch(|| Bmi2BlockOpsComprehensive::bulk_select1(&w, &[usize::MAX])).map_err(|e| bad("bmi2c_bulk_select1_kmax_panic", format!("bulk_select1(rank=usize::MAX) panicked at {}: {}", e.loc, e.msg)))?; ensure!(r.is_err(), "bmi2c_bulk_select1_oob", "rank=usize::MAX accepted: {r:?}");
+            let r = catch(|| Bmi2SelectOps::select1_bulk(&w, &[u32::MAX])).map_err(|e| bad("bmi2_select1_bulk_kmax_panic", format!("select1_bulk(k=u32::MAX) panicked at {}: {}", e.loc, e.msg)))?; ensure!(r.is_err() || d.pos1.len() > u32::MAX as usize, "bmi2_select1_bulk_oob", "k=u32::MAX accepted");
+            let r = catch(|| Bmi2BlockOps::select_bulk(&w, &[usize::MAX])).map_err(|e| bad("bmi2_select_bulk_kmax_panic", format!("select_bulk(k=usize::MAX) panicked at {}: {}", e.loc, e.msg)))?; ensure!(r.is_err(), "bmi2_select_bulk_oob", "k=usize::MAX accepted: {r:?}");
+            Ok(()) });
+    }
 }
